@@ -50,6 +50,11 @@ ASSUMPTIONS = [
 N_SLOTS = 3
 
 
+EXPECTED_PROBES = ['labels_propagated_between_saves', 'non_float64_training_data', 'load_checked', 'load_of_save_made_after_a_failed_save', 'loaded_into_differently_constructed_model', 'matrix_pairs_run', 'original_refitted_after_save', 'original_used_between_saves', 'path_overwritten', 'prediction_raises_consistently', 'refit_raised', 'restart_checked_', 'save_raised_and_original_compared', 'save_returned_normally_although_fault_fired', 'scheduled_fault_did_not_fire', 'second_generation_load', 'successful_save_after_failed_save']
+
+SLOW_ARMS = ("restart", "matrix")
+
+
 def arms(tier):
     if tier == "thorough":
         return [("plain", 400_000), ("faults", 280_000), ("restart", 12_000), ("matrix", 47 * 5 * 8)]
@@ -83,6 +88,16 @@ def gen_case(rng, arm, tier, k=0):
                 base["pool"] = [p if p[0] != "row" else ["row", [abs(v) + 0.05 for v in p[1]]] for p in base["pool"]]
                 if "XU" in base:
                     base["XU"] = [[abs(v) + 0.05 for v in row] for row in base["XU"]]
+    if arm in ("plain", "faults", "restart") and rng.random() < 0.15:
+        # training data that is not float64 (integer / single-precision features)
+        base["dtype"] = rng.choice(B.DTYPES)
+        base["metric"] = rng.choice(B.DTYPE_METRICS)
+        base["pre"] = False
+        small = lambda rows: [[float(int(abs(v)) % 4) for v in r] for r in rows]  # noqa: E731
+        base["X"] = small(base["X"])
+        base["pool"] = [p if p[0] != "row" else ["row", [float(int(abs(v)) % 4) for v in p[1]]] for p in base["pool"]]
+        if "XU" in base:
+            base["XU"] = small(base["XU"])
     n = len(base["X"])
     # second data set for "refit"
     base["X2"] = [list(r) for r in base["X"]]
@@ -111,7 +126,10 @@ def gen_case(rng, arm, tier, k=0):
         elif r < 0.78:
             ops.append(["refit"])
         elif r < 0.84:
-            ops.append(["use", [rng.randrange(len(base["pool"])) for _ in range(rng.randint(1, 4))]])
+            if base["kind"] in ("unsup", "unsup_prop") and rng.random() < 0.4:
+                ops.append(["propagate"])
+            else:
+                ops.append(["use", [rng.randrange(len(base["pool"])) for _ in range(rng.randint(1, 4))]])
         elif r < 0.90 and gens:
             ops.append(["check", rng.randrange(gens)])
         elif arm == "restart":
@@ -270,6 +288,8 @@ def run_case(case):
         except Stop:
             raise OutOfDomain()
         log = EventLog()
+        if case.get("dtype", "float64") != "float64":
+            bump(out.probes, "non_float64_training_data")
         kind, metric = case["kind"], case["metric"]
         facts = dict(kind=kind, metric_class=metric_class(metric), pre=case["pre"])
         paths = [os.path.join(scratch, "slot%d.pkl" % i) for i in range(N_SLOTS)]
@@ -420,15 +440,25 @@ def run_case(case):
                 except Exception:  # noqa: BLE001 - consistently failing predictions are compared at the loads
                     pass
                 norm.append(("use",))
+            elif kop == "propagate":
+                if kind not in ("unsup", "unsup_prop"):
+                    continue
+                out.steps += 1
+                try:
+                    m.propagate_labels()
+                    bump(out.probes, "labels_propagated_between_saves")
+                except Exception:  # noqa: BLE001
+                    pass
+                norm.append(("propagate",))
             elif kop == "refit":
                 out.steps += 1
                 refits += 1
-                X2, Y2 = arr(case["X2"]), iarr(case["Y2"])
+                X2, Y2 = c09.tarr(case, case["X2"]), iarr(case["Y2"])
                 try:
                     if kind == "supervised":
                         m.fit(X2, Y2, iarr(list(range(len(X2)))) if case["pre"] else None)
                     elif kind == "semi":
-                        m.fit(X2, Y2, arr(case.get("XU", [])).reshape(len(case.get("XU", [])), X2.shape[1]))
+                        m.fit(X2, Y2, c09.tarr(case, case.get("XU", [])).reshape(len(case.get("XU", [])), X2.shape[1]))
                     elif kind == "knn":
                         continue
                     else:
@@ -446,7 +476,7 @@ def run_case(case):
                     continue
                 out.steps += 1
                 exp = snap.expected(case, rows)
-                req = {"path": paths[slot], "kind": kind, "pre": case["pre"], "rows": rows, "idx": [c09.pool_index(case, q) for q in range(len(rows))] if case["pre"] else []}
+                req = {"path": paths[slot], "kind": kind, "pre": case["pre"], "rows": rows, "dtype": case.get("dtype", "float64"), "idx": [c09.pool_index(case, q) for q in range(len(rows))] if case["pre"] else []}
                 rep = restart_query(req)
                 bump(out.faults, "restart_fresh_interpreter")
                 out.nontrivial = True
